@@ -189,6 +189,9 @@ def run(ctx):
                     "prescribed bags; k-pointer operations agree with them; KeepsPairs rejects the first-value "
                     "corruption; limb-wise and byte-wise orders agree with the numeric order")
     # --- the real code
+    # temporary files of the code under test (spilled runs) stay under /verif/work
+    os.makedirs(os.path.join(vlib.WORK, "C11-tmp"), exist_ok=True)
+    os.environ["TMPDIR"] = os.path.join(vlib.WORK, "C11-tmp")
     s = ctx.harness(BIN, "drive", "b1", timeout=3000 if ctx.thorough else 900)
     files = _files(s)
     if not files:
@@ -288,6 +291,8 @@ def replay(ctx, path):
     ctx.seed = rep.get("seed", ctx.seed)
     subj = rep.get("subject")
     fam = (subj or "").split(":")[0]
+    os.makedirs(os.path.join(vlib.WORK, "C11-tmp"), exist_ok=True)
+    os.environ["TMPDIR"] = os.path.join(vlib.WORK, "C11-tmp")
     s = ctx.harness(BIN, "drive", "rp", subject=subj, extra={"fam": fam} if fam else None, timeout=900)
     files = _files(s)
     ctx.validate(TRACE, files, what="replay of " + os.path.basename(path), max_reject_per_file=60, jvm=JVM)
